@@ -47,21 +47,26 @@ example :
       (script .p2wsh (fun _ => List.replicate 20 0) n).map (·.drop 34) = some [173, 2, 144, 0, 178] := by
   decide
 
-/-- T2 (syntax): for EVERY well-shaped expression (well-typed or not, both dialects, sugar included:
+/-- T2 (syntax) — `numsOK`: every number is written in at most ten digits, which is what btclib's
+    `_NUMBER = [0-9]{1,10}` reads back (every lock time is; a threshold is below 10^10 in any
+    script that fits a block).  For EVERY such well-shaped expression (well-typed or not, both dialects, sugar included:
     `pk pkh t: l: u: and_n`), reading the written text gives the expression back. -/
-theorem parse_syntax_of_text (ctx : Ctx) (n : Ms) (hs : shaped ctx n = true) :
+theorem parse_syntax_of_text (ctx : Ctx) (n : Ms) (hs : shaped ctx n = true)
+    (hn : numsOK n = true) :
     parseSyntax ctx (toText n) = some n :=
-  parseSyntax_toText ctx n hs
+  parseSyntax_toText ctx n hs hn
 
 /-- T2: `parse(str(node)) == node` for every expression `parse` can return at all: well-shaped,
     every subexpression typed and of a size its context allows, and a "B" at the top. -/
-theorem parse_of_text (ctx : Ctx) (n : Ms) (hs : shaped ctx n = true)
+theorem parse_of_text (ctx : Ctx) (n : Ms) (hs : shaped ctx n = true) (hn : numsOK n = true)
     (ht : allTyped ctx n = true) (hB : (typeOf ctx n).B = true) :
     parse ctx (toText n) = some n := by
-  simp [parse, parseSyntax_toText ctx n hs, hs, ht, hB]
+  simp [parse, parseSyntax_toText ctx n hs hn, hs, ht, hB]
 
-/-- `parse` accepts nothing but what the type system accepts: every node of what it returns passed
-    `_assert_shape` and `_assert_typed`, and the whole is a "B". -/
+/-- (definitional: it restates the final check of the MODEL's `parse`, `Model/C15/Text.lean`; its
+    content is the `parse` stream, which ties that check to btclib's.)  `parse` accepts nothing but
+    what the type system accepts: every node of what it returns passed `_assert_shape` and
+    `_assert_typed`, and the whole is a "B". -/
 theorem parse_sound (ctx : Ctx) (s : List Char) (n : Ms) (h : parse ctx s = some n) :
     shaped ctx n = true ∧ allTyped ctx n = true ∧ (typeOf ctx n).B = true := by
   unfold parse at h
